@@ -336,6 +336,7 @@ func NormalizeString(s string) string {
 	// strip leading position prefixes "name:N: "
 	rest := s
 	line := -1
+	lines := ""
 	for {
 		i := strings.Index(rest, ": ")
 		if i < 0 {
@@ -355,6 +356,7 @@ func NormalizeString(s string) string {
 			break
 		}
 		line = n
+		lines += fmt.Sprintf("@%d", n) // every position prefix counts (a message raised again gains another one)
 		rest = rest[i+2:]
 	}
 	plain := isPlain(rest)
@@ -365,7 +367,7 @@ func NormalizeString(s string) string {
 	}
 	switch {
 	case line >= 0 && plain:
-		return fmt.Sprintf("@%d:%s", line, rest)
+		return lines + ":" + rest
 	case line >= 0:
 		// run-time faults and library errors: the line is not compared (C17 is
 		// not claimed and library errors have no defined position)
